@@ -11,7 +11,7 @@ class Prop(CoreProp):
     ID = "C12"
     checks = ["C12"]
     scheds = ["eager"]
-    tiers = {"quick": {"runs": 400, "selftest_runs": 4}, "thorough": {"runs": 8000, "selftest_runs": 32}}
+    tiers = {"quick": {"runs": 2000, "selftest_runs": 4}, "thorough": {"runs": 12000, "selftest_runs": 32}}
     rule = ("one run = one generated design with 1-2 condition() blocks (1-4 branches with free, overlapping conditions, optional "
             "default, blocking / nonblocking, priority on/off, one level of nesting) inside a transaction or a single- or two-caller "
             "method; branches call 0-2 methods of a shared pool (free readiness, validate_arguments) that outside transactions call "
